@@ -188,6 +188,7 @@ func runC07(w *mc.Worker) {
 		bounds = "sources and destinations of nesting depth <= 2 and joint weight <= 3, kept in every position; balances {0,1,2,3,5,H}^2; amounts {1,2,3,4,6,H+2}"
 		nm = "e2e-w3-d2"
 	}
+	runThreeSendersKept(w, owns, nontriv)
 	{
 		// nested destinations with kept, two plain sources (kept inside a branch that is followed by another share)
 		dst2 := &DstCfg{Asset: "USD", Accts: ws(0, "x", "y"), Caps: ws(0, "2", "4"),
@@ -201,6 +202,12 @@ func runC07(w *mc.Worker) {
 		sp2 := sendSpace{Name: fmt.Sprintf("nested-kept-w%d", nb), Bounds: fmt.Sprintf("sources {x y} over {a,b}; destinations of weight <= %d, nesting depth 2, kept in every position; balances {0,1,2,3,5}^2; amounts {1,2,3,4,6}", nb), Budget: nb, SrcDepth: 1, DstDepth: 2, Src: src2, Dst: dst2,
 			Modes: []string{"fixed", "all"}, Accts: []string{"a", "b"}, BalDom: bal, AmtDom: amt, Asset: "USD"}
 		runSendSpace(w, &sp2, owns, nontriv)
+	}
+	{
+		// amounts around the machine-word boundaries: a sender of 2^63+k against a share of 2, and so on
+		spP := sendSpace{Name: "pow2-w1", Bounds: "the same sources and destinations with joint weight <= 1 (depth 1); balances in {1,2^63,2^64-1,2^64+1}^2; amounts in {0,1,2^63-1,2^63,2^64-1,2^64,2^64+1,2^65}", Budget: 1, SrcDepth: 1, DstDepth: 1, Src: src, Dst: dst,
+			Modes: []string{"fixed", "all"}, Accts: []string{"a", "b"}, BalDom: []*big.Int{pow2Dom()[1], pow2Dom()[3], pow2Dom()[4], pow2Dom()[6]}, AmtDom: pow2Dom(), Asset: "USD"}
+		runSendSpace(w, &spP, owns, nontriv)
 	}
 	sp := sendSpace{Name: nm, Bounds: bounds, Budget: budget, SrcDepth: depth, DstDepth: depth, Src: src, Dst: dst,
 		Modes: []string{"fixed", "all"}, Accts: []string{"a", "b"}, BalDom: bal, AmtDom: amt, Asset: "USD"}
